@@ -463,7 +463,25 @@ func (p *Pather) path(v ssa.Value) string {
 		}
 		return "local:" + allocName(x)
 	case *ssa.MakeSlice:
-		return "makeslice(" + p.Path(x.Len) + ")"
+		base := "makeslice(" + p.Path(x.Len) + ")"
+		// several make() calls of the same size are distinguished by their order
+		n := 0
+		for _, b := range p.fn.Blocks {
+			for _, in := range b.Instrs {
+				if ms, ok := in.(*ssa.MakeSlice); ok {
+					if ms == x {
+						if n > 0 {
+							return fmt.Sprintf("%s#%d", base, n+1)
+						}
+						return base
+					}
+					if "makeslice("+p.Path(ms.Len)+")" == base {
+						n++
+					}
+				}
+			}
+		}
+		return base
 	case *ssa.MakeMap:
 		return "makemap"
 	case *ssa.MakeClosure:
